@@ -22,23 +22,24 @@ const logMod = "berty.tech/go-ipfs-log"
 
 // Ctx is everything one run knows about the analysed tree.
 type Ctx struct {
-	Repo     string
-	Tier     string
-	GOARCH   string
-	Fset     *token.FileSet
-	Roots    []*packages.Package
-	All      map[string]*packages.Package
-	Prog     *ssa.Program
-	RepoFns  []*ssa.Function // every function (incl. closures) whose package is a non-test repo package
-	TestFns  []*ssa.Function // functions of test packages / _test files (thorough only)
-	cg       *callgraph.Graph
-	cgKind   string
-	Obls     []*Obligation
-	Notes    []string
-	DepFacts map[string]string
-	Counts   map[string]int
-	WithCtl  bool
-	fnByKey  map[string]*ssa.Function
+	Repo       string
+	Tier       string
+	GOARCH     string
+	Fset       *token.FileSet
+	Roots      []*packages.Package
+	All        map[string]*packages.Package
+	Prog       *ssa.Program
+	RepoFns    []*ssa.Function // every function (incl. closures) whose package is a non-test repo package
+	TestFns    []*ssa.Function // functions of test packages / _test files (thorough only)
+	cg         *callgraph.Graph
+	cgKind     string
+	Obls       []*Obligation
+	Notes      []string
+	DepFacts   map[string]string
+	Counts     map[string]int
+	WithCtl    bool
+	fnByKey    map[string]*ssa.Function
+	ifaceCache map[string]*types.Interface
 }
 
 func (c *Ctx) note(f string, a ...interface{}) { c.Notes = append(c.Notes, fmt.Sprintf(f, a...)) }
